@@ -1,11 +1,19 @@
 import Ach.Props.Layouts
 import Ach.Proofs.Layout
 import Ach.Proofs.Compile
+import Ach.Proofs.Writer
 /-!
 # C02 — every successfully written file is physically well-formed NACHA  (record level)
 
 `compile_width` : whatever the extracted facts are, a layout that `compile`
-accepts is exactly 94 columns wide.  `written_record_94` : every record whose
+accepts is exactly 94 columns wide.
+
+File level, on the Writer model (`Ach.Model.Writer`: emission order of `Write` / `writeBatch` / `writeIATBatch` and the
+padding loop, over the file's tree shape; tied by the `write` correspondence stream, which compares the kinds of the
+records the real Writer emits for generated files of every SEC, IAT and ADV, all record-count residues mod 10):
+`written_blocking` (count is a multiple of ten), `written_filler_only_after_control`, `written_order` (the output is in
+the grammar FH (BH (ED AD*)* BC)* FC 9* and parses back to the file's tree), `create_counts_physical` (the block count
+`File.Create` stores equals the blocks physically written; its record total equals the records emitted).  `written_record_94` : every record whose
 field values are within their widths (`RecFix`, implied by `RecOK`) renders to
 exactly 94 characters.  The per-record obligations `Props.Layouts.layout_X`
 say that today's source compiles for each of the 26 record types.
@@ -29,5 +37,50 @@ theorem reread_record_94 (pf : ParseFact) (rf : RenderFact) (L : Layout) (h : co
     (renderRec L (parseRec ps L line)).length = 94 := by
   have hw := compile_width pf rf L h
   exact written_record_94 pf rf L h ps _ (parseRec_recFix L hs line (by rw [hw]; exact hl))
+
+/-! ## file level -/
+
+open Ach.Writer in
+/-- **written_blocking** -/
+theorem written_blocking (f : WFile) : (write f).length % 10 = 0 := write_length_mod f
+
+open Ach.Writer in
+/-- **written_filler_only_after_control**: the output is the records in order, ending with the file control, followed
+by fewer than ten all-9 records and nothing else -/
+theorem written_filler_only_after_control (f : WFile) : ∃ body, write f = body ++ [Kind.fileControl] ++
+    List.replicate (padCount (emit f).length) Kind.filler ∧ padCount (emit f).length < 10 := by
+  obtain ⟨body, _, h⟩ := write_tail_filler f
+  exact ⟨body, h, (padCount_spec _).2⟩
+
+open Ach.Writer in
+/-- **written_order**: file header, then batches of (batch header, entries each immediately followed by their own
+addenda, batch control), then one file control, then filler — and that sequence determines the file's tree -/
+theorem written_order (f : WFile) : parse (write f) = some f := parse_write f
+
+open Ach.Writer in
+/-- **create_counts_physical** -/
+theorem create_counts_physical (f : WFile) :
+    createTotalRecords f = (emit f).length ∧ createBlockCount f * 10 = (write f).length ∧
+    (emit f).count Kind.batchHeader = f.batches.length := by
+  refine ⟨createTotalRecords_eq f, createBlockCount_physical f, ?_⟩
+  have hE : ∀ es : List WEntry, (es.flatMap emitEntry).count Kind.batchHeader = 0 := by
+    intro es
+    induction es with
+    | nil => rfl
+    | cons e es ih =>
+      simp only [List.flatMap_cons, List.count_append, ih, emitEntry, List.count_cons, List.count_replicate]
+      simp
+  have hB : ∀ bs : List WBatch, (bs.flatMap emitBatch).count Kind.batchHeader = bs.length := by
+    intro bs
+    induction bs with
+    | nil => rfl
+    | cons b bs ih =>
+      simp only [List.flatMap_cons, List.count_append, ih, emitBatch, List.count_cons, hE, List.length_cons]
+      simp; omega
+  simp only [emit, List.count_cons, List.count_append, hB]
+  simp
+
+/-- non-vacuity: a file with two batches and 2+1 entries carrying 1, 0 and 2 addenda -/
+example : (Ach.Writer.write ⟨[⟨[⟨1⟩, ⟨0⟩]⟩, ⟨[⟨2⟩]⟩]⟩).length = 20 := by decide
 
 end Ach.Props.C02
